@@ -1477,15 +1477,19 @@ def run_hist(case, c):
     for d in range(depth):
         nxt = []
         for h in frontier:
+            pre_h = None
             for ai, act in enumerate(acts):
                 if d == 0 and ai % split[1] != split[0]:
                     continue                      # this configuration's BFS is split by the first action
                 env = replay(h)
-                pre = env.observe()
-                if (env.model_key(), pre) not in seen or seen[(env.model_key(), pre)] != h:
-                    if (env.model_key(), pre) not in seen:
+                if pre_h is None:
+                    # once per history: the replay must reproduce the recorded state (canonical observation, so it
+                    # is also the 'before' image of every action applied to this state)
+                    pre_h = env.observe()
+                    if (env.model_key(), pre_h) not in seen:
                         c.v('C15:hist:replay-diverged', 'replaying a recorded history gave a different state', {'history': [acts[k][0] for k in h]})
                         return
+                pre = pre_h
                 label, kind, pl = act
                 t = pl[0]
                 tc_pre, id_pre, addr_pre = env.i[t].typecode, id(env.i[t]), bufaddr(env.i[t])
@@ -1633,10 +1637,10 @@ def cases(tier, seed, flavour):
     else:
         configs = [(tc, shape) for shape in ([2, 2], [2, 3]) for tc in TCS]
     plans = {'A0': [('core', 2)], 'A1': [('full', 2)], 'Q': [('full', 2), ('core', 3)], 'T': [('full', 3), ('core', 4)]}[lvl]
-    nsplit = {'T': {'i': 1, 'd': 3, 'z': 6}, 'A1': {'i': 1, 'd': 2, 'z': 4}}.get(lvl, {})
+    nsplit = {('T', 3): {'i': 1, 'd': 3, 'z': 6}, ('T', 4): {'i': 2, 'd': 6, 'z': 16}, ('A1', 2): {'i': 1, 'd': 2, 'z': 4}}
     for tc, shape in configs:
         for alphabet, depth in plans:
-            ns = nsplit.get(tc, 1)
+            ns = nsplit.get((lvl, depth), {}).get(tc, 1)
             for k in range(ns):
                 yield {'part': 'hist', 'tc': tc, 'shape': shape, 'pal': pal, 'depth': depth, 'alphabet': alphabet,
                        'split': [k, ns]}
